@@ -16,21 +16,26 @@ def cfg(ttl_a, ttl_default):
     return (d, [GM.rule(b"A", b"A", ttl=ttl_a, help=b"ra"), GM.rule(b"G.*", b"G_$1", ttl=ttl_a, mmt=b"gauge", help=b"rg")])
 
 
-CFGS = {"c1": (2 * SEC, 5 * SEC), "c2": (10 * SEC, 0), "c3": (0, 1 * SEC)}
-# 7-operation alphabet (+ reload variants)
-ALPHA = ["sA", "sB", "sAB", "adv1", "adv3", "sweep", "reload"]
+CFGS = {"c1": (2 * SEC, 5 * SEC), "c2": (10 * SEC, 0), "c3": (0, 1 * SEC), "c4": (0, 0)}
+# 8-operation alphabet (+ reload variants); sA2 = another series (other label set) of A's family
+ALPHA = ["sA", "sB", "sAB", "adv1", "adv3", "sweep", "reload", "sA2"]
+# series of ONE family holding different ttls (immortal next to mortal, long next to short), in both creation orders
+DIRECTED = [("c4", ["sA", "reload", "sA2", "adv3", "sweep"]), ("c4", ["sA2", "reload", "sA", "adv3", "sweep"]),
+            ("c3", ["sA", "reload", "sA2", "adv3", "sweep", "adv3", "sweep"]), ("c1", ["sA2", "reload", "reload", "reload", "sA", "adv3", "sweep"]),
+            ("c4", ["sA", "sB", "reload", "sA2", "sB", "adv3", "sweep", "sA", "adv3", "sweep"]),
+            ("c2", ["sA", "reload", "reload", "sA2", "adv3", "adv3", "sweep", "adv3", "adv3", "sweep"])]
 
 
-def build(seq, rnd=None):
+def build(seq, rnd=None, start="c1"):
     """returns ops and the expected presence/values according to the property's own reading"""
-    cur = "c1"
+    cur = start
     ops = [GM.load_op(cfg(*CFGS[cur]))]
     now = 0
     st = {}          # series key -> dict(last, ttl, value)
     expect = []      # per G: dict key -> value
     # a rule ttl of 0 inherits the defaults' ttl (mapper.go), 0 in both means immortal
     ttl_of = lambda key: (CFGS[cur][0] or CFGS[cur][1]) if key[0] in (b"A", b"G_x") else CFGS[cur][1]
-    order = ["c1", "c2", "c3"]
+    order = ["c1", "c2", "c3", "c4"]
 
     def sample(name, key, val, rel=False):
         s = st.get(key)
@@ -42,6 +47,8 @@ def build(seq, rnd=None):
     for a in seq:
         if a == "sA":
             ops.append(PE.I(b"A:1|c")); sample(b"A", (b"A", "-"), 1.0)
+        elif a == "sA2":
+            ops.append(PE.I(b"A:2|c|#k:w")); sample(b"A", (b"A", vf.hexs(b"k") + "=" + vf.hexs(b"w")), 2.0)
         elif a == "sB":
             ops.append(PE.I(b"B:2|c|#k:v")); sample(b"B", (b"B", vf.hexs(b"k") + "=" + vf.hexs(b"v")), 2.0)
         elif a == "sAB":
@@ -55,16 +62,16 @@ def build(seq, rnd=None):
             for k in [k for k, s in st.items() if s["ttl"] != 0 and s["last"] + s["ttl"] < now]:
                 del st[k]
         elif a == "reload":
-            cur = order[(order.index(cur) + 1) % 3]
+            cur = order[(order.index(cur) + 1) % 4]
             ops.append(GM.load_op(cfg(*CFGS[cur])))
         ops.append("G")
         expect.append({k: s["value"] for k, s in st.items()})
     return ops, expect
 
 
-def gen_case_from(seq):
-    ops, expect = build(seq)
-    return (15, ("none", 0), ops, dict(seq=list(seq), expect=[{"%s|%s" % (k[0].decode(), k[1]): v for k, v in e.items()} for e in expect]))
+def gen_case_from(seq, start="c1"):
+    ops, expect = build(seq, start=start)
+    return (15, ("none", 0), ops, dict(seq=list(seq), start=start, expect=[{"%s|%s" % (k[0].decode(), k[1]): v for k, v in e.items()} for e in expect]))
 
 
 def f_of(bits):
@@ -104,14 +111,18 @@ def run(rep, tier, seed, replay):
     import random
     depth = 4 if tier == "quick" else 6
     exhaustive = [gen_case_from(seq) for d in range(1, depth + 1) for seq in itertools.product(ALPHA, repeat=d)]
+    n_exh = len(exhaustive)
+    # Go map iteration order decides which series a sweep meets first: the directed histories run 8 times each
+    exhaustive += [gen_case_from(seq, start=st0) for st0, seq in DIRECTED for _ in range(8)]
 
     def gen(rnd):
-        return gen_case_from([rnd.choice(ALPHA) for _ in range(rnd.randint(7, 40))])
+        return gen_case_from([rnd.choice(ALPHA) for _ in range(rnd.randint(7, 40))], start=rnd.choice(["c1", "c4", "c3"]))
     PC.run(rep, "C07", tier, seed, replay, gen, monitor, 300, 6000,
-           "all %d histories of depth <= %d over the 7-operation alphabet {sample A, sample B (other name, labels), two samples of A on one line, advance 1s, advance 3s, "
-           "sweep, reload that changes the ttls (2s/5s -> 10s/0 -> 0/1s)} + random histories of depth 7-40 (%%(n)d cases in total), scraped after every operation and compared "
+           "all %d histories of depth <= %d over the 8-operation alphabet {sample A, sample A with a tag (a second series of the same family), sample B (other name, labels), two samples "
+           "of A on one line, advance 1s, advance 3s, sweep, reload that changes the ttls (2s/5s -> 10s/0 -> 0/1s -> 0/0)}, directed histories in which one family holds immortal and mortal "
+           "series (8 runs each: map iteration order) + random histories of depth 7-40 (%%(n)d cases in total), scraped after every operation and compared "
            "with the property's own reading (last sample + its ttl, strict comparison at the sweep, recreation from zero); non-trivial = history in which a sweep removed a series; "
-           "distinct by operation sequence" % (len(exhaustive), depth), extra_cases=exhaustive)
+           "distinct by operation sequence" % (n_exh, depth), extra_cases=exhaustive)
     rep.cov["exhaustive"] = True
     if not replay and len(rep.violations) < 5:
         # real time in the built binary: the exporter's own once-a-second sweep, ttl 3 s, with and without a refreshing sample
